@@ -8,7 +8,10 @@ use std::sync::*;
 #[cfg(desync_verif)]
 use vsched::sync::*;
 use std::collections::vec_deque::*;
+#[cfg(not(desync_verif))]
 use std::panic;
+#[cfg(desync_verif)]
+use vsched::panic;
 
 use futures::task;
 use futures::task::{Context};
